@@ -31,3 +31,6 @@ mod c03_codecs;
 
 #[cfg(kani)]
 mod c10_f4jumble;
+
+#[cfg(kani)]
+mod c10_container;
